@@ -94,7 +94,7 @@ conf() {
     C04) Q=50   T=700 ;;
     C05) Q=60   T=900 ;;
     C06) Q=150  T=2000 ;;
-    C07) Q=120  T=1500 ;;
+    C07) Q=70   T=1500 ;;
     C08) Q=40   T=600 ;;
     C09) Q=50   T=600 ;;
     C10) Q=15   T=300 ;;
